@@ -16,6 +16,7 @@ ENGINES = {
     "C14": "engines.c14",
     "C08": "engines.c08",
     "C16": "engines.c16",
+    "C19": "engines.c19",
     "C13": "engines.c13",
 }
 
